@@ -1,6 +1,6 @@
 (* C08_lex.v — C08 (accepted iff documented), TEXT LEVEL: what the tokenizer makes of a text. *)
 From Coq Require Import String NArith ZArith List Bool.
-From BP Require Import TotalBase LexBase Lex LexSpec LexCase LexProofs LexClass.
+From BP Require Import TotalBase LexBase Lex LexSpec LexCase LexProofs LexClass LexMunch.
 From BPGen Require Import GenLexer.
 Import ListNotations.
 
@@ -57,6 +57,50 @@ Theorem C08_lex_lone_slash_divide : forall uw fuel p post,
 Proof. exact lone_slash_divide. Qed.
 Print Assumptions C08_lex_lone_slash_divide.
 
+(* WHICH prefix the backtracking search returns (not the longest in general — here proved per rule):
+   the greedy class rules take the maximal run ... *)
+Theorem C08_lex_identifier_maximal : forall uw fuel p s, (length s <= S fuel)%nat ->
+  rmatch uw fuel rx_t_IDENTIFIER (p, s)
+  = match s with
+    | c :: r => if ok_idstart c then Some (lastc (Some c) (fst (span ok_idchar r)), snd (span ok_idchar r)) else None
+    | [] => None
+    end.
+Proof. exact identifier_maximal. Qed.
+Print Assumptions C08_lex_identifier_maximal.
+
+Theorem C08_lex_int_literal_maximal : forall uw fuel p s, (length s <= S fuel)%nat ->
+  rmatch uw fuel rx_t_INT_LITERAL (p, s)
+  = match s with
+    | c :: r => if ok_digit c then Some (lastc (Some c) (fst (span ok_digit r)), snd (span ok_digit r)) else None
+    | [] => None
+    end.
+Proof. exact int_literal_maximal. Qed.
+Print Assumptions C08_lex_int_literal_maximal.
+
+Theorem C08_lex_hex_literal_maximal : forall uw fuel p c r, (length r <= fuel)%nat ->
+  rmatch uw fuel rx_t_HEX_LITERAL (p, 48%N :: 120%N :: c :: r)
+  = if ok_hex c then Some (lastc (Some c) (fst (span ok_hex r)), snd (span ok_hex r)) else None.
+Proof. exact hex_literal_maximal. Qed.
+Print Assumptions C08_lex_hex_literal_maximal.
+
+Theorem C08_lex_comment_maximal : forall uw fuel p r, (length r <= fuel)%nat ->
+  rmatch uw fuel rx_t_COMMENT (p, 47%N :: 47%N :: r)
+  = Some (lastc (Some 47%N) (fst (span ok_notnl r)), snd (span ok_notnl r)).
+Proof. exact comment_maximal. Qed.
+Print Assumptions C08_lex_comment_maximal.
+
+(* ... and the lazy string rule ends at the FIRST double quote that is not escaped (LexSpec.str_close);
+   there is no match — the quote becomes an invalid token — when the line or the input ends first *)
+Theorem C08_lex_string_first_close : forall uw fuel p r, (length r <= fuel)%nat ->
+  rmatch uw fuel rx_t_STRING_LITERAL (p, 34%N :: r) = close_result r.
+Proof. exact string_literal_first_close. Qed.
+Print Assumptions C08_lex_string_first_close.
+
+Theorem C08_lex_str_close_split : forall r body rest,
+  str_close r = Some (body, rest) -> r = body ++ 34%N :: rest /\ ~ In NL body.
+Proof. exact str_close_split. Qed.
+Print Assumptions C08_lex_str_close_split.
+
 (* the vocabulary of the direct scanner (LexSpec) is the one in lexer.py *)
 Theorem C08_lex_vocabulary :
   lex_ignore = S_ignore /\ lex_literals = S_literals /\ lex_keywords = S_keywords
@@ -65,8 +109,8 @@ Theorem C08_lex_vocabulary :
 Proof. repeat split. Qed.
 Print Assumptions C08_lex_vocabulary.
 
-(* ---- non-vacuity / worked instances (the general statements behind these — maximal munch of the
-   class rules, uintN/intN for every N, the printer round trip — are evaluated per generated input
+(* ---- non-vacuity / worked instances (the general statements behind these — uintN/intN for every N,
+   equality with LexSpec.spec_lex on every input, the printer round trip — are evaluated per generated input
    against LexSpec.spec_lex on every run, not proved: partial) -------------------------------- *)
 Definition types_of (s : list N) := map t_type (fst (lex uni_word s)).
 Definition vals_of (s : list N) := map t_val (fst (lex uni_word s)).
